@@ -10,6 +10,7 @@ import (
 	"go/types"
 	"os"
 	"path/filepath"
+	"regexp"
 	"runtime/debug"
 	"sort"
 	"strings"
@@ -230,10 +231,108 @@ func hasProp(ps []string, p string) bool {
 	return false
 }
 
+var rePC = regexp.MustCompile(`pc_[A-Za-z0-9_.$]*![0-9]+`)
+var reSym = regexp.MustCompile(`[A-Za-z_$][A-Za-z0-9_.$]*![0-9]+`)
+
+// declInfo: per declaration, the path-condition symbols guarding it (for relevance pruning)
+type declInfo struct {
+	guards []string // pc symbols in the guard of "(assert (=> guard ...))"
+	defines string  // pc symbol defined by "(assert (= pc ...))"
+	parents []string
+}
+
+var declCache sync.Map // *Enc -> []declInfo (prefix-extended lazily)
+var declMu sync.Mutex
+
+func declInfos(e *Enc, n int) []declInfo {
+	declMu.Lock()
+	defer declMu.Unlock()
+	var cur []declInfo
+	if v, ok := declCache.Load(e); ok {
+		cur = v.([]declInfo)
+	}
+	for i := len(cur); i < n; i++ {
+		d := e.decls[i]
+		var di declInfo
+		if strings.HasPrefix(d, "(assert (= ") && len(d) > 12 && d[11] != '(' {
+			j := strings.IndexByte(d[11:], ' ')
+			if j > 0 {
+				name := d[11 : 11+j]
+				if reSym.FindString(name) == name {
+					di.defines = name
+					di.parents = reSym.FindAllString(d[11+j:], -1)
+				}
+			}
+		} else if strings.HasPrefix(d, "(assert (=> ") {
+			g0 := 12
+			g1 := sexprEnd(d, g0)
+			guard := d[g0:g1]
+			if strings.HasPrefix(guard, "pc_") || strings.HasPrefix(guard, "(and ") {
+				if !strings.Contains(guard, "(or ") && !strings.Contains(guard, "(not ") && !strings.Contains(guard, "(=> ") && !strings.Contains(guard, "(ite ") {
+					di.guards = rePC.FindAllString(guard, -1)
+				} else if strings.HasPrefix(guard, "(and pc_") {
+					// first conjunct is a bare pc symbol
+					k := strings.IndexAny(guard[5:], " )")
+					if k > 0 {
+						di.guards = []string{guard[5 : 5+k]}
+					}
+				}
+			}
+		}
+		cur = append(cur, di)
+	}
+	declCache.Store(e, cur)
+	return cur
+}
+
+var noPrune = os.Getenv("GOVC_NOPRUNE") != ""
+
 func buildSMT(e *Enc, o *Obl) string {
 	var sb strings.Builder
 	sb.WriteString(preamble)
-	for _, d := range e.decls[:o.NDecl] {
+	// relevance pruning: a fact guarded by a path condition that is not an ancestor of the
+	// obligation's own path condition lies on a different path (every block is executed once, with
+	// merged states, so two path conditions neither of which derives from the other are mutually
+	// exclusive); dropping hypotheses is always sound.
+	var rel map[string]bool
+	var infos []declInfo
+	if o.Expect != "sat" && !noPrune {
+		infos = declInfos(e, o.NDecl)
+		rel = map[string]bool{}
+		work := reSym.FindAllString(o.PC+" "+o.Raw, -1)
+		def := map[string][]string{}
+		for _, di := range infos {
+			if di.defines != "" {
+				def[di.defines] = di.parents
+			}
+		}
+		for len(work) > 0 {
+			x := work[len(work)-1]
+			work = work[:len(work)-1]
+			if rel[x] {
+				continue
+			}
+			rel[x] = true
+			work = append(work, def[x]...)
+		}
+	}
+	for i, d := range e.decls[:o.NDecl] {
+		if rel != nil {
+			di := infos[i]
+			skip := false
+			for _, g := range di.guards {
+				if !rel[g] {
+					skip = true
+					break
+				}
+			}
+			if di.defines != "" && strings.HasPrefix(di.defines, "pc_") && !rel[di.defines] {
+				skip = true
+			}
+			if skip {
+				continue
+			}
+		}
 		sb.WriteString(d)
 		sb.WriteByte('\n')
 	}
@@ -403,7 +502,7 @@ func run(t0 time.Time) int {
 		}
 		j.o.File = file
 		jwg.Add(1)
-		go func(o *Obl, file string, lambda bool) {
+		go func(o *Obl, file string, lambda bool, enc *Enc) {
 			defer jwg.Done()
 			jsem <- struct{}{}
 			defer func() { <-jsem }()
@@ -428,10 +527,38 @@ func run(t0 time.Time) int {
 			} else {
 				o.Res, o.All = solveFile(file, budget, lambda)
 			}
+			if o.Res.Status != "sat" && o.Res.Status != "unsat" {
+				// conjunctive goal: proving every conjunct separately proves the goal
+				if gs, _ := splitGoal(o.Raw); len(gs) > 1 {
+					total, ok := 0.0, true
+					for k, g := range gs {
+						o2 := *o
+						o2.Goal = sImp(o.PC, g)
+						f2, err := writeSMT(work, fmt.Sprintf("%s_c%d", filepath.Base(strings.TrimSuffix(file, ".smt2")), k+1), buildSMT(enc, &o2))
+						if err != nil {
+							ok = false
+							break
+						}
+						r, _ := solveFile(f2, budget, lambda)
+						total += r.Secs
+						if r.Status != "unsat" {
+							ok = false
+							if r.Status == "sat" {
+								o.Res = r
+								o.File = f2
+							}
+							break
+						}
+					}
+					if ok {
+						o.Res = SolveResult{Status: "unsat", Solver: "portfolio-per-conjunct", Secs: total}
+					}
+				}
+			}
 			if o.Res.Status == "sat" {
 				o.Model = parseModel(o.Res.Model)
 			}
-		}(j.o, file, j.r.Enc.lambda)
+		}(j.o, file, j.r.Enc.lambda, j.r.Enc)
 	}
 	jwg.Wait()
 	tSolve := time.Since(t0).Seconds() - tLoad - tGen
